@@ -253,6 +253,19 @@ class C14(Prop):
                         cb["values"][k] = present if cb["values"][k] == {"na": 1} else {"na": 1}
                 cases.append({"a": t, "b": b, "mut": mut})
                 continue
+            if mut in ("colname", "colorder", "identity", "col_remove") and i % 3 == 0 and len(t["cols"]) >= 2:
+                # tables built without explicit units (zero rows, or not strictly typed): the header comparison must
+                # still see every column name, in order
+                a = copy.deepcopy(t)
+                for c in a["cols"]:
+                    c["unit"] = {"text": "text", "onoff": "onoff", "datetime": "datetime"}.get(c["kind"], "-")
+                    if i % 2 == 0:
+                        c["values"] = []
+                a["no_units"] = True
+                if i % 2 == 1:
+                    a["strict"] = False
+                cases.append({"a": a, "b": mutate(rng, a, mut), "mut": mut})
+                continue
             if mut == "subclass":
                 cases.append({"a": t, "b": copy.deepcopy(t) if i % 2 else mutate(rng, t, "cell"), "mut": mut})
                 continue
